@@ -584,6 +584,11 @@ class Timings:
             t = masked_timings[n]
             # t.windows["pid"].seq[0, -1, :, :, :]
             for input_name, output_name in inputs.items():
+                if output_name not in masked_timings:
+                    # The producer has no slot in the supergraph (e.g. pruned, because none of its messages is consumed
+                    # within the horizon): only its default output is ever read, so a minimal buffer suffices.
+                    node_buffer_sizes.setdefault(output_name, [])
+                    continue
                 # Determine min input sequence per generation (i.e. we reduce over all slots within a generation & window)
                 seq_in = onp.amin(t.windows[input_name].seq, axis=(2, 4))
                 seq_in = seq_in.reshape(
